@@ -299,10 +299,10 @@ func init() {
 		stateRule,
 		[]Stage{bfs("lsm", 4, 40, prm("oracle", "c12", "keys", 2, "inmemory", true, "nofiles", true)), bfs("lsm", 4, 40, prm("oracle", "c12", "mode", "normal", "keys", 2, "inmemory", true, "nofiles", true, "ops", "Sa Sb Da F C0 C1 O X"))},
 		[]Stage{bfs("lsm", 6, 600, prm("oracle", "c12", "keys", 2, "inmemory", true, "nofiles", true)), bfs("lsm", 6, 600, prm("oracle", "c12", "mode", "normal", "keys", 2, "inmemory", true, "nofiles", true, "ops", "Sa Sb Da Db F C0 C1 O X A"))})
-	planTable["C33"] = lsmPlan("Normal-mode histories mixing expiring (TTL 5 s), non-expiring and deleted versions with flushes, compactions, value-log GC and virtual-clock advances (11 s): after every transition Get, forward/reverse iteration (and the retained-version dump) show an entry iff now < expiresAt; an expired newest version hides older ones; a newer plain write is visible.",
+	planTable["C33"] = lsmPlan("Normal-mode histories mixing expiring (TTL 5 s), non-expiring and deleted versions with flushes, compactions, value-log GC and virtual-clock advances (11 s): after every transition Get and forward/reverse iteration show an entry iff now < expiresAt (and, for every history of up to 3 (quick) / 5 (thorough) steps over {TTL set, set, delete, clock advance, flush, compaction}, so do a Stream run and a Backup + Load into a fresh database); an expired newest version hides older ones; a newer plain write is visible.",
 		stateRule,
-		[]Stage{bfs("lsm", 5, 70, prm("oracle", "c12", "mode", "normal", "keys", 1, "ttl", true, "l0_tables", 1, "ops", "Sa La Da F C0 A O X"))},
-		[]Stage{bfs("lsm", 7, 900, prm("oracle", "c12", "mode", "normal", "keys", 2, "ttl", true, "l0_tables", 1, "ops", "Sa La Sb Da F C0 C1 A O X")), bfs("lsm", 5, 600, prm("oracle", "c12", "mode", "normal", "keys", 1, "ttl", true, "big", true, "gc", true, "vlog_max_entries", 1, "l0_tables", 1, "ops", "Ba La Da F C0 G A"))})
+		[]Stage{bfs("lsm", 5, 70, prm("oracle", "c12", "mode", "normal", "keys", 1, "ttl", true, "l0_tables", 1, "ops", "Sa La Da F C0 A O X")), en("c33stream", 16, 60, prm("len", 3))},
+		[]Stage{bfs("lsm", 7, 900, prm("oracle", "c12", "mode", "normal", "keys", 2, "ttl", true, "l0_tables", 1, "ops", "Sa La Sb Da F C0 C1 A O X")), bfs("lsm", 5, 600, prm("oracle", "c12", "mode", "normal", "keys", 1, "ttl", true, "big", true, "gc", true, "vlog_max_entries", 1, "l0_tables", 1, "ops", "Ba La Da F C0 G A")), en("c33stream", 16, 600, prm("len", 5))})
 
 	planTable["C22"] = func(q bool) *Plan {
 		p := &Plan{Level: "model_checking", Engine: "E-sched + E-enum",
